@@ -774,15 +774,23 @@ func c10Registrant(m c07Msg) string {
 // it is reported when the run is over instead, and the New / Update exploration goes on.
 type c10Deferred struct {
 	V    *c10Viol
-	Case c07Case
+	Case c10Case
 }
 
-func c10Check(t vh.Fataler, rec *vh.Rec, w *c10World, c c07Case, later *c10Deferred) {
+func c10Check(t vh.Fataler, rec *vh.Rec, w *c10World, c c10Case, later *c10Deferred) {
 	e := w.e
 	e.apply(c.Conf, c.Live)
-	exp, err := c07Model(e, c)
+	exp, err := c07Model(e, c.c07Case)
 	if err != nil {
 		t.Fatalf("harness problem: %v", err)
+	}
+	// the GeoIP database of the case (the station's own empty database unless the case scripts one)
+	var geo *c10GeoDB
+	if c.Geo != nil {
+		geo = &c10GeoDB{g: *c.Geo}
+		savedGeo := e.rm.GeoIP
+		e.rm.GeoIP = geo
+		defer func() { e.rm.GeoIP = savedGeo }()
 	}
 	w.srv.Take()
 	_, perr := e.deliver(c07Build(c.Msg))
@@ -795,6 +803,50 @@ func c10Check(t vh.Fataler, rec *vh.Rec, w *c10World, c c07Case, later *c10Defer
 
 	cl := map[string]bool{}
 	nontriv := false
+	switch {
+	case geo == nil:
+		cl["geoip:empty-database"] = true
+	case !c.Geo.faulty():
+		cl["geoip:healthy"] = true
+	}
+	if geo != nil {
+		if _, failed, first := geo.stats(); failed > 0 {
+			nontriv = true
+			cl["geoip:lookup-failed"] = true
+			cl["geoip:lookup-failed:"+first+"-first"] = true
+			if c.Geo.From == 0 {
+				cl["geoip:lookup-failed:from-first-lookup"] = true
+			} else {
+				cl["geoip:lookup-failed:later-lookup"] = true
+			}
+			if c.Geo.Until != 0 {
+				cl["geoip:lookup-failed:transient"] = true
+			}
+			if rr := c.Msg.RR; rr != nil && rr.HasPort {
+				cl["geoip:lookup-failed+port-registrar-assigned"] = true
+			}
+			if exp.Fam[0].Overridden || exp.Fam[1].Overridden {
+				cl["geoip:lookup-failed+phantom-registrar-assigned"] = true
+			}
+			if c.Msg.V4 == 1 && c.Msg.V6 == 1 {
+				cl["geoip:lookup-failed+dual-stack-message"] = true
+			}
+			cl["geoip:lookup-failed+registrant:"+c10Registrant(c.Msg)] = true
+			if len(valid) > 0 {
+				cl["geoip:lookup-failed+admitted"] = true
+			}
+		} else if c.Geo.faulty() {
+			cl["geoip:fault-not-reached"] = true
+		}
+	}
+	classes := func(more ...string) []string {
+		out := append([]string(nil), more...)
+		for k := range cl {
+			out = append(out, k)
+		}
+		sort.Strings(out)
+		return out
+	}
 	if why := c10OutOfDomain(c.Msg); why != "" {
 		// the statement quantifies over registrant addresses absent / IPv4 / IPv6 / v4-mapped and
 		// over (valid) registrar-assigned phantoms and ports; a trusted registrar sending an
@@ -803,7 +855,11 @@ func c10Check(t vh.Fataler, rec *vh.Rec, w *c10World, c c07Case, later *c10Defer
 		return
 	}
 	if len(valid) == 0 {
-		rec.Case(false, vh.Digest(c), nil, "skipped:not-admitted")
+		if nontriv {
+			rec.Case(true, vh.Digest(c), c, classes("not-admitted")...)
+		} else {
+			rec.Case(false, vh.Digest(c), nil, classes("skipped:not-admitted")...)
+		}
 		if len(pubs) != 0 {
 			rec.Violation(t, "announce:nothing-admitted", c, "%d messages published although no registration was admitted", len(pubs))
 		}
@@ -843,7 +899,7 @@ func c10Check(t vh.Fataler, rec *vh.Rec, w *c10World, c c07Case, later *c10Defer
 			return
 		}
 		f := famOf(d)
-		if fail(w.checkAnnouncement(det, c, f, d, m, pb.StationOperations_New)) {
+		if fail(w.checkAnnouncement(det, c.c07Case, f, d, m, pb.StationOperations_New)) {
 			return
 		}
 		cl["op:New"] = true
@@ -872,7 +928,17 @@ func c10Check(t vh.Fataler, rec *vh.Rec, w *c10World, c c07Case, later *c10Defer
 	if r != "ipv4" {
 		nontriv = true
 	}
-	// Update: a connection arrives for each of them
+	// Update: a connection arrives for each of them, at once or some time after the registration
+	// was validated (every clock the station keeps for it has moved)
+	if c.UseAfterS > 0 {
+		c10Advance(e, time.Duration(c.UseAfterS)*time.Second)
+		cl["use:after-time-passed"] = true
+		if c.UseAfterS >= 30 {
+			cl["use:half-a-minute-or-more-after-registration"] = true
+		}
+	} else {
+		cl["use:at-once"] = true
+	}
 	for _, d := range valid {
 		w.use(d)
 		up := w.srv.Take()
@@ -885,7 +951,7 @@ func c10Check(t vh.Fataler, rec *vh.Rec, w *c10World, c c07Case, later *c10Defer
 			fail(v, nil)
 			return
 		}
-		if fail(w.checkAnnouncement(det, c, famOf(d), d, m, pb.StationOperations_Update)) {
+		if fail(w.checkAnnouncement(det, c.c07Case, famOf(d), d, m, pb.StationOperations_Update)) {
 			return
 		}
 		cl["op:Update"] = true
@@ -904,22 +970,18 @@ func c10Check(t vh.Fataler, rec *vh.Rec, w *c10World, c c07Case, later *c10Defer
 		return
 	}
 	cl["op:Clear"] = true
-	var classes []string
-	for k := range cl {
-		classes = append(classes, k)
-	}
-	sort.Strings(classes)
-	rec.Case(nontriv, vh.Digest(c), c, classes...)
+	rec.Case(nontriv, vh.Digest(c), c, classes()...)
 }
 
-const c10Rule = "messages from C07's generator biased towards admission (every transport incl. the UDP one, both families, registrant absent / IPv4 / IPv6 / v4-mapped, selected and registrar-assigned phantoms and ports) are ingested through the real pipeline with the real sendToDetector publishing to an in-process RESP server; each admitted registration is then marked active, then Cleanup() is called. Every published message is decoded and checked against the model of the detector's rules (cross-checked with a rustc-built helper), against the registration, and against the station's lifetimes; the modelled session table must be empty after the clear request. Non-trivial: registrant not a plain IPv4 address, or UDP transport, or registrar-assigned phantom / port. Distinct = distinct case description."
+const c10Rule = "messages from C07's generator biased towards admission (every transport incl. the UDP one, both families, registrant absent / IPv4 / IPv6 / v4-mapped, selected and registrar-assigned phantoms and ports) are ingested through the real pipeline with the real sendToDetector publishing to an in-process RESP server; each admitted registration is then marked active - at once or a drawn 1 s .. 9 min after it was validated (every timestamp the station keeps for it moved back) - then Cleanup() is called. One case in five runs with a GeoIP database that answers (country, AS number) instead of the empty one. Every published message is decoded and checked against the model of the detector's rules (cross-checked with a rustc-built helper), against the registration, and against the station's lifetimes; the modelled session table must be empty after the clear request. Non-trivial: registrant not a plain IPv4 address, or UDP transport, or registrar-assigned phantom / port. Distinct = distinct case description."
 
 func TestVerif_C10_announce(t *testing.T) {
 	rec := vh.NewRec("C10", "announce", c10Rule)
 	defer rec.Flush()
 	rec.Require("op:New", "op:Update", "op:Clear", "family:v4", "family:v6", "proto:udp", "proto:tcp", "registrant:absent", "registrant:ipv4",
 		"registrant:ipv6", "registrant:v4-mapped", "phantom:registrar-assigned", "phantom:selected", "port:registrar-assigned",
-		"transport:Min", "transport:Obfs4", "transport:Prefix", "transport:DTLS")
+		"transport:Min", "transport:Obfs4", "transport:Prefix", "transport:DTLS",
+		"use:at-once", "use:after-time-passed", "use:half-a-minute-or-more-after-registration", "geoip:empty-database", "geoip:healthy")
 	w := c10NewWorld(t, rec)
 	defer func() {
 		if w.rust != nil {
@@ -928,7 +990,7 @@ func TestVerif_C10_announce(t *testing.T) {
 		}
 	}()
 	if p := vh.ReplayFile(); p != "" {
-		var c c07Case
+		var c c10Case
 		if _, _, err := vh.LoadReplay(p, &c); err != nil {
 			t.Fatal(err)
 		}
@@ -937,8 +999,12 @@ func TestVerif_C10_announce(t *testing.T) {
 	}
 	later := &c10Deferred{}
 	rapid.Check(t, func(rt *rapid.T) {
-		c := c07Gen(rt, c07Admit)
+		c := c10Case{c07Case: c07Gen(rt, c07Admit)}
 		c.Repeat = false
+		if rapid.IntRange(0, 4).Draw(rt, "geoip-healthy") == 0 {
+			c.Geo = c10GenGeo(rt, false) // a station with working databases; faults: sub-check geoip
+		}
+		c.UseAfterS = c10GenUseAfter(rt)
 		c10Check(rt, rec, w, c, later)
 	})
 	if later.V != nil && !t.Failed() {
@@ -950,9 +1016,9 @@ func TestVerif_C10_announce(t *testing.T) {
 // itself applies. A registration is aged to just under / just over the lifetime named in the New
 // (then Update) message and the sweeper is run: it has to survive / be removed.
 func TestVerif_C10_lifetimes(t *testing.T) {
-	rec := vh.NewRec("C10", "lifetimes", "for every transport x family: ingest (New), age the registration to requested lifetime -/+ 60 s, sweep: usable before, forgotten after; again with the registration used the way connection handling uses it (MarkActive, which publishes Update, then the real Proxy with an unreachable covert). Time is advanced by shifting the recorded registration time backwards. The manager is built through the production path (ParseConfig of a station TOML + NewRegistrationManager) for three configurations (plain; longer lifetime keys + unknown keys; shorter lifetime keys) and the requested lifetime must equal the lifetime the registry that path built applies (timeoutUnused / timeoutActive). Exhaustive over 3 configurations x 4 transports x 2 families x {unused, used}. Plus every history [ingest] + up to 4 (thorough: 5) operations from {ingest the same message again, mark active, advance 5 min, 7 min, 2 h 59 min, 3 h 5 min, sweep, sweep during which another registration arrives and is validated (placed at the debug line the sweeper writes between its phases)} + [sweep]: at every sweep point a registration the station still hands out must have a live session in the modelled detector (announcements actually published, each counted from the moment it was published, the longer one kept; 60 s slack). Non-trivial: every case.")
+	rec := vh.NewRec("C10", "lifetimes", "for every transport x family: ingest (New), age the registration to requested lifetime -/+ 60 s, sweep: usable before, forgotten after; again with the registration used the way connection handling uses it (MarkActive, which publishes Update, then the real Proxy with an unreachable covert), at once and again half an unused lifetime after the registration was made. Time is advanced by shifting every timestamp the station keeps for a registration backwards (the registry's expiry record and the registration's own RegistrationTime). The manager is built through the production path (ParseConfig of a station TOML + NewRegistrationManager) for three configurations (plain; longer lifetime keys + unknown keys; shorter lifetime keys) and the requested lifetime must equal the lifetime the registry that path built applies (timeoutUnused / timeoutActive). Exhaustive over 3 configurations x 4 transports x 2 families x {unused, used, used-late}. Plus every history [ingest] + up to 4 (thorough: 5) operations from {ingest the same message again, mark active, advance 5 min, 7 min, 2 h 59 min, 3 h 5 min, sweep, sweep during which another registration arrives and is validated (placed at the debug line the sweeper writes between its phases)} + [sweep]: at every sweep point a registration the station still hands out must have a live session in the modelled detector (announcements actually published, each counted from the moment it was published, the longer one kept; 60 s slack), and every New / Update published anywhere in a history must request the lifetime the station applies to that state, however old the registration is by then. Non-trivial: every case.")
 	defer rec.Flush()
-	rec.Require("unused", "used", "station-config:plain", "station-config:longer-lifetimes+unknown-keys", "station-config:shorter-lifetimes", "history:duplicate-ingest", "history:sweep-past-detector-lifetime", "history:used", "history:arrival-during-sweep-admitted")
+	rec.Require("unused", "used", "used-late", "history:used-after-time-passed", "station-config:plain", "station-config:longer-lifetimes+unknown-keys", "station-config:shorter-lifetimes", "history:duplicate-ingest", "history:sweep-past-detector-lifetime", "history:used", "history:arrival-during-sweep-admitted")
 	rec.SetExhaustive(true)
 	w := c10NewWorld(t, rec)
 	defaultEnv := w.e
@@ -967,7 +1033,8 @@ func TestVerif_C10_lifetimes(t *testing.T) {
 		rec.Class("station-config:" + variant.name)
 		for _, tp := range c07TransportsAll {
 			for _, v6 := range []bool{false, true} {
-				for _, used := range []bool{false, true} {
+				for _, state := range []string{"unused", "used", "used-late"} {
+					used := state != "unused"
 					idx++
 					if !vh.Mine(idx) {
 						continue
@@ -986,11 +1053,8 @@ func TestVerif_C10_lifetimes(t *testing.T) {
 					default:
 						c.Msg.Params = c07Params{Kind: "generic"}
 					}
-					class := "unused"
-					if used {
-						class = "used"
-					}
-					rec.Case(true, vh.Digest(map[string]any{"case": c, "used": used}), map[string]any{"case": c, "used": used}, class)
+					class := state
+					rec.Case(true, vh.Digest(map[string]any{"case": c, "used": state}), map[string]any{"case": c, "used": state}, class)
 					e.apply(c.Conf, c.Live)
 					w.srv.Take()
 					if _, err := e.deliver(c07Build(c.Msg)); err != nil {
@@ -1009,7 +1073,14 @@ func TestVerif_C10_lifetimes(t *testing.T) {
 						rec.Violation(t, v.Key, c, "%s", v.Msg)
 						continue
 					}
+					// elapsed: how long ago the registration was made when it is used (the station counts
+					// both of its lifetimes from the registration)
+					elapsed := time.Duration(0)
 					if used {
+						if state == "used-late" {
+							elapsed = e.rm.registeredDecoys.timeoutUnused / 2
+							c10Advance(e, elapsed)
+						}
 						w.use(valid[0])
 						up := w.srv.Take()
 						if len(up) != 1 {
@@ -1035,13 +1106,13 @@ func TestVerif_C10_lifetimes(t *testing.T) {
 						continue
 					}
 					usable := func() bool { return len(e.rm.GetRegistrations(valid[0].PhantomIp)) == 1 }
-					e.vShiftAll(life - slack)
+					c10Advance(e, life-slack-elapsed)
 					e.rm.RemoveOldRegistrations()
 					if !usable() {
 						rec.Violation(t, "lifetime:station-forgets-earlier", c, "%v announced with a lifetime of %v, but the station has forgotten the registration %v before that (used=%v)", m.GetOperation(), life, slack, used)
 						continue
 					}
-					e.vShiftAll(2 * slack)
+					c10Advance(e, 2*slack)
 					e.rm.RemoveOldRegistrations()
 					if usable() {
 						rec.Violation(t, "lifetime:station-keeps-longer", c, "%v announced with a lifetime of %v, but the station still accepts the registration %v after that (used=%v): the detector no longer forwards the session", m.GetOperation(), life, slack, used)
